@@ -49,14 +49,14 @@ func main() {
 	lib.Main(
 		&lib.Prop{ID: "C12", Part: "sequential", Level: "exploration", NCases: n(3000, 200000), Run: c12Sequential, Assumptions: c12Assume,
 			Rule: "10..40 seeded calls CreateCheckpoint / CreateSavepoint (before, while, after a pending checkpoint) / AddOperatorSnapshot / AddSourceSnapshot / CurrentCheckpoint on a real snapshots.Store next to a sequential model (one pending checkpoint with expected operator and runner ids, id floor, published set); assembly sizes 1..4 x 1..4 walked by the case index and changed in flight; acknowledgements: expected, duplicates (same and new payload), wrong ids (pending+-1, current, 0, +2^32, random), unknown senders (foreign ids, operator ids as runners and vice versa, nodes of a previous assembly, empty id), before create, late after completion and after a restart abandoned the checkpoint; store restarts on the same storage (new Store + LoadCheckpoint); 2 cases in 5 start the id counter high (seed savepoint with an id around name-encoding borders or random up to 2^64-60); 1 in 10 on a real LocalDirectory. After EVERY call the store is awaited and the storage log, CurrentCheckpoint and retention notices are compared with the model: nothing written/announced unless the model completed that id, the snapshot file and CurrentCheckpoint hold exactly one entry per expected operator (equal to one of its acknowledgements for that id) and exactly the split states of one acknowledgement per expected runner, no second pending checkpoint, ids strictly above every earlier/published id also across restarts. non-trivial = >=1 checkpoint published and >=1 bad acknowledgement; distinct by call-list hash"},
-		&lib.Prop{ID: "C12", Part: "concurrent", Level: "exploration", NCases: n(200, 20000), Run: c12Concurrent, Assumptions: append([]string{
+		&lib.Prop{ID: "C12", Part: "concurrent", Level: "exploration", NCases: n(1000, 100000), Run: c12Concurrent, Assumptions: append([]string{
 			"jobs.Job calls the Store directly from RPC handler goroutines and the checkpoint ticker (no task queue): concurrent calls on one Store are in the production domain",
 			"linearizability (Porcupine, 10 s cap -> inconclusive) is checked for Create*/Add* against the sequential store with unconstrained acknowledgement return values; CurrentCheckpoint, which advances asynchronously, is checked directly",
 			"the next checkpoint cannot complete inside a burst (acknowledgements with id+1 come from operators only), so publications of consecutive checkpoints never overlap here (that is C13's subject)"}, c12Assume...),
 			Rule: "1..3 rounds per case on one Store (1 in 3 with the id counter started high): a checkpoint (1 in 4: savepoint) is created, then 2..4 goroutines released together deliver, in seeded per-goroutine orders, one acknowledgement of every expected node plus 0..3 duplicates, 0..2 wrong-id, 0..2 unknown-sender acknowledgements, 0..2 CreateCheckpoint, 0..1 CreateSavepoint and 0..2 CurrentCheckpoint calls; in 1 round of 5 CreateCheckpoint itself races with the acknowledgements of the id it will return (rejected ones are re-delivered). Direct oracle per round: exactly one snapshot write for the id, started after an acknowledgement call of every expected node, content as in part sequential, a checkpoint created inside the burst only after completion and only one; then the whole call history (call/return ticks of one logical clock) is checked for linearizability. non-trivial = >=1 burst; distinct by (assembly, per-goroutine op lists) hash; observed completion orders counted as extra signatures. Repeated under the race detector"},
 		&lib.Prop{ID: "C12", Part: "kf-dup-runner-ack", Level: "exploration", NCases: n(1, 1), Run: kfDupRunnerAck,
 			Rule: "deterministic minimal history of the duplicate source-runner acknowledgement: 1 operator, 1 runner; CreateCheckpoint; runner ack; runner ack again; operator ack; the published snapshot is compared with the model as in part sequential"},
-		&lib.Prop{ID: "C13", Part: "crash-prefixes", Level: "fault_enumeration", NCases: n(400, 30000), Run: c13Case, Assumptions: c13Assume,
+		&lib.Prop{ID: "C13", Part: "crash-prefixes", Level: "fault_enumeration", NCases: n(1000, 30000), Run: c13Case, Assumptions: c13Assume,
 			Rule: "scenarios of 2..6 completed checkpoints (assembly 1..2 x 1..2, every node acknowledges in a seeded order) whose first id walks a list of 40 bases around the borders of the file-name encoding (1,2,3; 14..18; 47,48; 62..64; 190..192; 255,256; 831,832; 1007,1008; 1023,1024; 4095,4096; 2^16+-1; 2^22-1; 2^32+-1; 2^40-1; 2^48+2; 2^63-1; 2^63; 2^64-40) or is random; per checkpoint seeded: savepoint requested before/while pending, the snapshot Write held until 1..2 later checkpoints completed AND were published (forced publication overlap, released in seeded order), the next Remove held the same way (3 snapshot files coexist), a store restart on the live storage. The GateLocation log is then cut after EVERY individual Write/Copy/Remove: a fresh Store.LoadCheckpoint on that image must recover the snapshot with the highest id present (and exactly its content). Retention rule on the whole stream: no Remove of the newest completely written snapshot, no retention notice that omits it. non-trivial = >=1 image with >=2 snapshot files; distinct by scenario hash; distinct image shapes (ids present, name order inverted or not) counted as extra signatures"},
 		&lib.Prop{ID: "C13", Part: "kf-listing-order", Level: "fault_enumeration", NCases: n(1, 1), Run: kfListingOrder,
 			Rule: "deterministic: empty store, checkpoints 1, 2, 3 without any hold; crash images after every storage operation (the image between Write(3) and Remove(2) holds the files of 2 and 3)"},
